@@ -82,7 +82,8 @@ impl<'a> Visitor for LifeJobs<'a> {
         for &(n, k, script) in &self.devs {
             let (e2, mut c2) = (e.clone(), cfg.clone());
             c2.script = script;
-            self.out.push(job(move || Box::new(LifeMachine::<S>::new(e2.clone(), c2.clone())), Mode::Dev(DevCfg::new(n, k)), false));
+            // runs with two deviations are thousands of executions: parallelise inside the job
+            self.out.push(job(move || Box::new(LifeMachine::<S>::new(e2.clone(), c2.clone())), Mode::Dev(DevCfg::new(n, k)), k >= 2));
         }
     }
 }
@@ -139,7 +140,7 @@ impl<'a> crate::catalogue::StackVisitor for StackJobs<'a> {
             self.out.push(job(
                 move || Box::new(StackMachine::<S, C>::new(e.clone(), caps.clone(), oracle, nv, script)),
                 Mode::Dev(DevCfg::new(n, k)),
-                false,
+                k >= 2,
             ));
         }
     }
@@ -243,7 +244,7 @@ pub fn jobs(prop: &str, tier: &str) -> Vec<Job> {
             let scripts: &[u8] = &[0, 1, 2, 3];
             idx_jobs::<IndexList<Vec<u32>, Vec<u64>>>(&mut out, IdxOracle::Space, d, devs, scripts);
             idx_jobs::<IndexOptimized>(&mut out, IdxOracle::Space, d, devs, scripts);
-            let sdevs: &[(usize, usize, u8)] = if thorough { &[(4096, 0, 0), (256, 1, 0), (64, 2, 1)] } else { &[(1024, 0, 0), (48, 1, 0)] };
+            let sdevs: &[(usize, usize, u8)] = if thorough { &[(4096, 0, 0), (256, 1, 0), (48, 2, 1)] } else { &[(1024, 0, 0), (48, 1, 0)] };
             stacks(&mut out, StackOracle::Space, if thorough { 5 } else { 4 }, sdevs, 4);
         }
         "C01" => {
